@@ -155,6 +155,16 @@ class AggLoop(LoopSpec):
         out += [post['starts-at-round(ta)'], post['ends-at-round(tb)'], post['nonempty']]
         ref = post['refines']
         out += [ref.arg(0), inst(ref.arg(1), w.top), inst(post['wf.nodes'], w.top)]
+        # rounding facts at the query start: forall-elimination of the T5 axioms at ta, and the grid-gap lemma for node L[0]
+        ta = to_z3(env['ta'])
+        for ax in w.round_axioms():
+            if z3.is_quantifier(ax) and ax.num_vars() == 1:
+                out.append(inst(ax, ta))
+            elif z3.is_app(ax) and ax.decl().kind() == z3.Z3_OP_IMPLIES and z3.is_quantifier(ax.arg(1)) and ax.arg(1).num_vars() == 1:
+                out.append(z3.Implies(ax.arg(0), inst(ax.arg(1), ta)))
+            elif not z3.is_quantifier(ax) and not any(z3.is_quantifier(c) for c in ax.children()):
+                out.append(ax)
+        out.append(w.grid_gap(h.arr['_start'][L.arr[0]], h.arr['_end'][L.arr[0]]))
         return out
 
     def facts(self, cx, env, j, hint_at):
@@ -162,15 +172,16 @@ class AggLoop(LoopSpec):
         h = w.heap
         L = env['intervals']
         ta = to_z3(env['ta'])
+        rta = ROUND(ta)
         e = h.arr['_end'][L.arr[j]]
         W = to_z3(env['W'])
         hints = self.hints(cx, env, hint_at)
         out = [{'name': 'e>ta', 'goal': e > ta, 'ground': True, 'hints': hints},
-               {'name': 'W=Wc(e)-Wc(ta)', 'goal': W == w.Wc[e] - w.Wc[ta], 'ground': True, 'hints': hints}]
+               {'name': 'W=Wc(e)-Wc(round(ta))', 'goal': W == w.Wc[e] - w.Wc[rta], 'ground': True, 'hints': hints}]
         if env.get('H') is not None:
             H = to_z3(env['H'])
-            out.append({'name': 'U-relation', 'goal': (e - ta) * (W / 2 + H) == w.V[e] - w.V[ta] - (e - ta) * w.Wc[ta],
-                        'ground': True, 'hints': hints})
+            out.append({'name': 'U-relation(at resolved ta)', 'ground': True, 'hints': hints,
+                        'goal': z3.Implies(rta == ta, (e - ta) * (W / 2 + H) == w.V[e] - w.V[ta] - (e - ta) * w.Wc[ta])})
         return out
 
     def inv(self, E, cx, env, entry):
@@ -216,7 +227,6 @@ class Call(TreeContract):
         h = w.heap
         return self.base_requires(w) + [
             ('last-allocated', h.alloc(w.extra['_last_interval'].e)),
-            ('resolved-times', z3.And(ROUND(a['ta'].e) == a['ta'].e, ROUND(a['tb'].e) == a['tb'].e)),
             ('in-range', z3.And(h.sel('_start', w.top) <= a['ta'].e, a['tb'].e <= h.sel('_end', w.top), a['ta'].e <= a['tb'].e)),
             ('num_evaluations', w.extra['_num_evaluations'].e >= -100),
         ]
@@ -248,13 +258,14 @@ class Call(TreeContract):
             hints = [post['starts-at-round(ta)'], post['ends-at-round(tb)'], post['nonempty'], inst(post['allocated'], 0),
                      inst(post['ghost.path'], L.arr[0]), inst(post['wf.nodes'], L.arr[0]),
                      inst(post['allocated'], L.n - 1), inst(post['ghost.path'], L.arr[L.n - 1])]
-        items.append({'name': 'W=Wc(tb)-Wc(ta)', 'ground': True,
-                      'goal': z3.Implies(z3.And(inrange, ta < tb, *hints), to_z3(Wv) == w.Wc[tb] - w.Wc[ta])})
-        items.append(('zero-length=>W=0', z3.Implies(cta == ctb, to_z3(Wv) == 0)))
+        resolved = z3.And(ROUND(ta) == ta, ROUND(tb) == tb)
+        items.append({'name': 'W=Wc(round(tb))-Wc(round(ta))', 'ground': True,
+                      'goal': z3.Implies(z3.And(inrange, ROUND(ta) < ROUND(tb), *hints), to_z3(Wv) == w.Wc[ROUND(tb)] - w.Wc[ROUND(ta)])})
+        items.append(('zero-length=>W=0', z3.Implies(ROUND(cta) == ROUND(ctb), to_z3(Wv) == 0)))
         if Uv is not None:
             items.append({'name': 'U=V(tb)-V(ta)-(tb-ta)Wc(ta)', 'ground': True,
-                          'goal': z3.Implies(z3.And(inrange, ta < tb, *hints), to_z3(Uv) == w.V[tb] - w.V[ta] - (tb - ta) * w.Wc[ta])})
-            items.append(('zero-length=>U=0', z3.Implies(cta == ctb, to_z3(Uv) == 0)))
+                          'goal': z3.Implies(z3.And(inrange, ta < tb, resolved, *hints), to_z3(Uv) == w.V[tb] - w.V[ta] - (tb - ta) * w.Wc[ta])})
+            items.append(('zero-length=>U=0', z3.Implies(ROUND(cta) == ROUND(ctb), to_z3(Uv) == 0)))
         return items
 
 
@@ -264,3 +275,62 @@ class ZeroSize:
 
 def install_generic_element_torch(E):
     E.externs['torch'].attrs['zeros'] = I.ExternFunc('torch.zeros', lambda *a, **k: SV(z3.RealVal(0)))
+
+
+# ----------------------------------------------------------------------------------------------
+# _create_dependency_tree (after the fix: commits): explicit stack, rounded midpoint, strict-inside guard
+# ----------------------------------------------------------------------------------------------
+class DepTreeLoop(LoopSpec):
+    modifies = ('interval', 'start', 'end', 'midway', 'stack')
+
+    def __init__(self, contract):
+        self.c = contract
+
+    def havoc(self, E, cx, env, entry):
+        w = cx.state['world']
+        self.before = w.heap.snapshot()
+        w.heap.havoc('ht')
+        st = new_ref_list(cx, cx.fresh('stack_len', Z), cx.fresh('stack', z3.ArraySort(Z, Z)))
+        return {'stack': st}
+
+    def inv(self, E, cx, env, entry):
+        w = cx.state['world']
+        h = w.heap
+        st = env['stack']
+        if isinstance(st, list):
+            arr = z3.K(Z, z3.IntVal(0))
+            for k, x in enumerate(st):
+                arr = z3.Store(arr, k, x.e)
+            st = new_ref_list(cx, z3.IntVal(len(env['stack'])), arr)
+            env['stack'] = st
+        i = z3.Int('i_')
+        return w.wf() + w.seeds_wf() + [
+            ('refines-entry', w.refines(self.c.entry_heap)),
+            ('stack-len>=0', st.n >= 0),
+            ('stack-allocated', z3.ForAll([i], z3.Implies(z3.And(0 <= i, i < st.n), h.alloc(st.arr[i])), patterns=[st.arr[i]])),
+            ('piece_length>0', to_z3(env['piece_length']) > 0),
+        ]
+
+
+class CreateDepTreeBody(TreeContract):
+    """Real body of _create_dependency_tree(dt): partial correctness -- no exception, tree only refined, WF kept,
+    piece_length > 0 for every documented cache_size (termination of the refinement is argued in DESIGN, not proved)."""
+    qualname = QT + '_create_dependency_tree'
+
+    def harness(self, E, cx):
+        w = self.world(E, cx)
+        self.entry_heap = w.heap.snapshot()
+        cs_none = cx.fresh('cache_size_none', B)
+        w.extra.update({'_cache_size': OptVal(cs_none, SV(cx.fresh('cache_size', Z))), '_tree_dt': SV(cx.fresh('tree_dt'))})
+        E.loops[(self.qualname, 0)] = DepTreeLoop(self)
+        return {'self': w.topref, 'dt': cx.real('dt'), '$w': w, '$old': self.entry_heap}
+
+    def requires(self, E, cx, a):
+        w = a['$w']
+        cs = w.extra['_cache_size']
+        return self.base_requires(w) + [('dt>0', a['dt'].e > 0), ('tree_dt>0', w.extra['_tree_dt'].e > 0),
+                                        ('cache_size>=0', z3.Or(cs.isnone, to_z3(cs.val) >= 0))]
+
+    def ensures(self, E, cx, a, r):
+        w = a['$w']
+        return [('refines', w.refines(a['$old']))] + w.wf() + w.seeds_wf()
